@@ -8,7 +8,11 @@
 (* (0,0) standing for the point at infinity.                               *)
 (***************************************************************************)
 EXTENDS ECurve, TLC, Json
-CONSTANTS MaxOps, AddSet, NLcg           \* AddSet: small integers j (Q = [j]G); NLcg: number of pseudo-random scalars
+CONSTANTS MaxOps, AddSet, NLcg,          \* AddSet: small integers j (Q = [j]BasePt); NLcg: number of pseudo-random scalars
+          BaseKind                       \* the point BasePt the walk starts from and measures discrete logs against: "G", or "X0" =
+                                         \* (0, sqrt b), the finite point with a ZERO coordinate (SM2's b is a square mod p; the
+                                         \* group has prime order, so X0 generates it too); (0,0) encodes infinity in this API,
+                                         \* so an implementation may confuse a point with one zero coordinate with it
 \* scalar descriptors <<family, parameter>>: zero, tiny, values at and around the group order and twice it, powers of
 \* two and all-ones windows, leading zeros, empty and 40-byte strings, n-1..n-20 (whose windowed recoding makes the
 \* accumulator meet +-digit*P), pseudo-random
@@ -22,6 +26,9 @@ ScalarSet == IF NLcg = 0 THEN WalkScalars ELSE
              {<<"alt", v>> : v \in {0, 15, 85, 170}} \cup {<<"long40", v>> : v \in {0, 1, 255}} \cup
              {<<"lcg", s>> : s \in 1..NLcg}
 C == SM2Curve
+X0 == Pt("0", "2baee16e8c959f0f817757c2930a5e9805192e4636ccf1991dcd1ff0a323eab")
+ASSUME OnCurve(C, X0.x, X0.y)
+BasePt == IF BaseKind = "X0" THEN X0 ELSE G(C)
 VARIABLES P, dl, hist
 vars == <<P, dl, hist>>
 
@@ -42,7 +49,7 @@ ScalarBytes(d) ==
     [] d[1] = "lcg"    -> [i \in 1..32 |-> (d[2] * 37 + i * 101 + i * i * (d[2] + 3)) % 256]
 ScalarVal(d) == BMod(BFromBytes(ScalarBytes(d)), C.n)
 
-Init == /\ \/ (P = G(C) /\ dl = "1") \/ (P = Inf /\ dl = "0")
+Init == /\ \/ (P = BasePt /\ dl = "1") \/ (P = Inf /\ dl = "0")
         /\ hist = <<>>
 H(e) == hist' = Append(hist, e)
 Aff(Q) == [x |-> Affine(Q)[1], y |-> Affine(Q)[2]]
@@ -50,7 +57,7 @@ Aff(Q) == [x |-> Affine(Q)[1], y |-> Affine(Q)[2]]
 \* Add(P, Q): Q = [j]G for a catalogue value, or chosen relative to P: "same" (Q = P), "neg" (Q = -P), "inf"
 AddQ(kind, j) ==
   LET jj == CASE kind = "same" -> dl [] kind = "neg" -> BSubMod("0", dl, C.n) [] kind = "inf" -> "0" [] OTHER -> BFromInt(j)
-      Q == PMul(C, jj, G(C))
+      Q == PMul(C, jj, BasePt)
       R == PAdd(C, P, Q)
   IN /\ P' = R /\ dl' = BAddMod(dl, jj, C.n)
      /\ H([op |-> "add", kind |-> kind, p |-> Aff(P), q |-> Aff(Q), expect |-> Aff(R)])
@@ -62,6 +69,7 @@ Mul(d) == LET R == PMulBytes(C, ScalarBytes(d), P) IN
           /\ P' = R /\ dl' = BMulMod(dl, ScalarVal(d), C.n)
           /\ H([op |-> "mul", p |-> Aff(P), k |-> ScalarBytes(d), kd |-> d, expect |-> Aff(R)])
 BaseMul(d) == LET R == PMulBytes(C, ScalarBytes(d), G(C)) IN
+              /\ BaseKind = "G"          \* (the discrete log of G with respect to X0 is unknown)
               /\ P' = R /\ dl' = ScalarVal(d)
               /\ H([op |-> "basemul", k |-> ScalarBytes(d), kd |-> d, expect |-> Aff(R)])
 \* membership probes around the current point
@@ -86,7 +94,7 @@ Next == /\ Len(hist) < MaxOps
 Spec == Init /\ [][Next]_vars
 
 \* the specification's own sanity: the tracked discrete log explains the point, and the point is on the curve
-Consistent == P = PMul(C, dl, G(C)) /\ (P.inf \/ OnCurve(C, P.x, P.y))
+Consistent == P = PMul(C, dl, BasePt) /\ (P.inf \/ OnCurve(C, P.x, P.y))
 Emit == Len(hist) = MaxOps => PrintT(<<"BEH", ToJson(hist)>>)
 
 \* --- key generation as a table: the bytes the reader supplies determine d = (bytes mod (n-2)) + 1, P = [d]G ---
